@@ -134,7 +134,7 @@ def run(tier, seed):
     res = explore.BFSResult()
     dev = []
     for cfg in CONFIGS[tier]:
-        explore.bfs(h, cfg, DEPTH[tier], col, seed=seed, result=res, merge_all=(tier == 'thorough'),
+        explore.bfs(h, cfg, DEPTH[tier], col, seed=seed, result=res, merge_all=(tier == 'thorough'), merge_lookahead=2,
                     run_state_checks=True)
         for kind in ('coop', 'lateclose', 'silent', 'refuse'):
             kk, win = (2, 10) if tier == 'quick' else (DEVK[tier], 24)
